@@ -13,6 +13,7 @@ structure LInstCfg where
   factor : Nat        -- as configured (0 = default 1)
   maxInterval : Nat   -- ms, as configured (0 = default 500)
   provErr : Bool
+  partErr : Bool := false   -- v1: createPartitions returns an error (the resource is provisioned all the same)
   faults : List String
   pre : List Nat
   post : List Nat
@@ -31,11 +32,11 @@ def parseLScn (inp : KV) : LScn :=
     | [sh, rs, f, mi, pre, post, flt, _, pe] =>
       let nums (s : String) : List Nat := if s == "-" then [] else (s.splitOn "+").filterMap String.toNat?
       ({ shared := (sh.toNat?).getD 0, reserved := (rs.toNat?).getD 0, factor := (f.toNat?).getD 0, maxInterval := (mi.toNat?).getD 0,
-         provErr := pe == "1", faults := if flt == "-" then [] else flt.splitOn "+", pre := nums pre, post := nums post } : LInstCfg)
+         provErr := pe == "1", partErr := pe == "2", faults := if flt == "-" then [] else flt.splitOn "+", pre := nums pre, post := nums post } : LInstCfg)
     | [sh, rs, f, mi, pre, post, flt, _, pe, slow] =>
       let nums (s : String) : List Nat := if s == "-" then [] else (s.splitOn "+").filterMap String.toNat?
       ({ shared := (sh.toNat?).getD 0, reserved := (rs.toNat?).getD 0, factor := (f.toNat?).getD 0, maxInterval := (mi.toNat?).getD 0,
-         provErr := pe == "1", faults := if flt == "-" then [] else flt.splitOn "+", pre := nums pre, post := nums post,
+         provErr := pe == "1", partErr := pe == "2", faults := if flt == "-" then [] else flt.splitOn "+", pre := nums pre, post := nums post,
          slow := (slow.toNat?).getD 0 } : LInstCfg)
     | _ => { shared := 0, reserved := 0, factor := 0, maxInterval := 0, provErr := false, faults := [], pre := [], post := [] }
   { gen := inp.nat "gen", lease := inp.nat "lease", insts := insts.toArray, endT := inp.nat "end" }
@@ -95,7 +96,7 @@ def monitorLease (sc : LScn) (entries : List String) : List (String × String) :
     let kind := f.getD 1 ""
     let n2 := ((f.getD 2 "").toNat?).getD 0
     let n3 := ((f.getD 3 "").toNat?).getD 0
-    let cfg (i : Nat) : LInstCfg := sc.insts[i]?.getD ⟨0, 0, 0, 0, false, [], [], [], 0⟩
+    let cfg (i : Nat) : LInstCfg := sc.insts[i]?.getD ⟨0, 0, 0, 0, false, false, [], [], [], 0⟩
     let ist (i : Nat) : LInstSt := m.insts[i]?.getD {}
     if m.suspect.any (fun x => x.1 < t) then
       m := m.add "C07" "lease-request-without-demand"
@@ -307,7 +308,12 @@ def checkLeaseMon (inp obs : KV) : Option String × List (String × String) :=
     let h := obs.get "hang"
     let rule := if (h.splitOn "clearPartitionId").length > 1 then "expiry-blocked-by-provisioning"
       else if (h.splitOn "calc").length > 1 then "capacity-update-blocked-by-provisioning" else "stall:" ++ h
-    (some ("fields=hang " ++ h), [("C04", "counted-outside-lease:" ++ rule), ("C17", rule)])
+    -- the acquisition loop itself among the goroutines that wait for ever: capacity is never acquired again
+    let loopStuck := (h.splitOn "getAllocatedAndRandomUnallocatedPartition").length > 1 || (h.splitOn ").loop").length > 1 ||
+      (h.splitOn "AzureSharedResource).Start").length > 1
+    (some ("fields=hang " ++ h), [("C04", "counted-outside-lease:" ++ rule), ("C17", rule)] ++
+      (if loopStuck then [("C09", "acquisition-loop-blocked-for-ever:" ++ h), ("C20", "deadlock:" ++ h)]
+       else [("C09", "capacity-bookkeeping-blocked-for-ever:" ++ h), ("C20", "deadlock:" ++ h)]))
   else
   let entries := if obs.get "tr" == "-" || obs.get "tr" == "" then [] else (obs.get "tr").splitOn ";"
   let viols := monitorLease sc entries
